@@ -27,21 +27,26 @@ open Rivaas.Skel Rivaas.Gen.Serve
 
 /-! ### reset covers the fields -/
 
-/-- fields reset is allowed to leave alone: `router` (index 3; every serve path assigns it before use) -/
-def allowedUncleared : List Nat := [fRouter]
+/-- fields reset is allowed to leave alone: `router` (every serve path assigns it before use) -/
+def allowedUncleared : List String := ["router"]
 
 theorem reset_covers_every_field :
-    Rivaas.Gen.Ctx.resetKind.all (fun p => p.2 != 0 || allowedUncleared.contains p.1) = true ∧
-    Rivaas.Gen.Ctx.resetKind.length = Rivaas.Gen.Ctx.fieldCount ∧
-    Rivaas.Gen.Ctx.resetKind.map (·.1) = List.range Rivaas.Gen.Ctx.fieldCount := by decide
+    Rivaas.Gen.Ctx.resetKindByName.all (fun p => p.2 != 0 || allowedUncleared.contains p.1) = true ∧
+    Rivaas.Gen.Ctx.resetKindByName.length = Rivaas.Gen.Ctx.fieldCount ∧
+    Rivaas.Gen.Ctx.resetKindByName.map (·.1) = Rivaas.Gen.Ctx.ctxFields := by decide
 
-/-- the model's Context has exactly the fields of the source, in order, and its `reset` treats each of
+/-- what the model's reset does to a field, by name -/
+def modelKind (n : String) : Option Nat :=
+  ((Rivaas.Pool.fieldNames.zip Rivaas.Pool.resetKinds).find? (·.1 == n)).map (·.2)
+
+/-- the model's Context has exactly the fields of the source (in any declaration order) and its `reset` treats each of
     them the way the source does (kinds as documented in Gen/Ctx.lean) -/
 theorem reset_matches_model :
-    Rivaas.Gen.Ctx.ctxFields = Rivaas.Pool.fieldNames ∧
-    Rivaas.Gen.Ctx.resetKind.map (·.2) = Rivaas.Pool.resetKinds ∧
+    Rivaas.Gen.Ctx.ctxFields.length = Rivaas.Pool.fieldNames.length ∧
+    Rivaas.Gen.Ctx.resetKindByName.all (fun p => modelKind p.1 == some p.2) = true ∧
+    Rivaas.Pool.fieldNames.all (Rivaas.Gen.Ctx.ctxFields.contains ·) = true ∧
     Rivaas.Gen.Ctx.slotBound = Rivaas.Pool.slotCount ∧
-    Rivaas.Gen.Ctx.slotGuard = 5 := by decide
+    Rivaas.Gen.Ctx.slotGuardName = "paramCount" := by decide
 
 /-- the app-level pool (app/context_pool.go, App.wrapHandler): all three fields are cleared on Put, cleared again
     in the deferred function and assigned before the handler runs; get, deferred put, init, handler in this order -/
@@ -83,18 +88,18 @@ def unroll (acc : Option (List Ev)) : List Ev → List Ev
     | none => e :: unroll none r
 
 /-- fields that must have been assigned since the get before anything runs on the context -/
-def required : List Nat := [fRequest, fResponse, fRouter, fIndex, 5]
+def required : List Nat := [fRequest, fResponse, fRouter, fIndex, fParamCount]
 
 /-- `assigned`: fields assigned since the get / the last reset; `written`: a parameter-writing lookup ran since
     the get / the last reset / the last `paramCount = 0`; `early`: such a lookup ran before paramCount was assigned
     (harmless for a borrowed probe context, not allowed on a context a handler will see) -/
 def heldInit (assigned : List Nat) (written early : Bool) : List Ev → Bool
   | [] => true
-  | .assign _ f :: r => heldInit (f :: assigned) (written && f != 5) early r
+  | .assign _ f :: r => heldInit (f :: assigned) (written && f != fParamCount) early r
   | .reset _ :: r => heldInit [] false early r
   | .use _ w :: r =>
     if w == 0 then heldInit assigned written early r
-    else !written && heldInit assigned true (early || !assigned.contains 5) r
+    else !written && heldInit assigned true (early || !assigned.contains fParamCount) r
   | .run _ w :: r =>
     required.all assigned.contains && !early && (w != whatNext || assigned.contains fHandlers) &&
       heldInit assigned written early r
